@@ -3,7 +3,7 @@ import random
 
 import numpy as np
 
-from common import Driver, Report, ser_result, wf_failure, lean_obligations, err_class
+from common import Driver, Report, ser_diagram, wf_failure, lean_obligations, err_class
 from core import Family, Gen, tok_expr, enumerate_diagrams, small_signature
 from semantics import IntFunctor, wire_labels
 import recvlib
@@ -66,8 +66,29 @@ def wide(F, d, limit=128):
     return max([F.tydim(d.dom)] + [F.tydim(l.cod) for l in d.layers.boxes]) > limit
 
 
+def etext(e, limit=200):
+    """Class and text of an exception for a failure message; never raises."""
+    try:
+        return ("%s: %s" % (type(e).__name__, e))[:limit]
+    except Exception as e2:
+        return "%s (printing it raises %s)" % (type(e).__name__, type(e2).__name__)
+
+
+def error_text_failure(e):
+    """The refusal is an error object the caller can print: str(), repr() and format() of it are
+    built without raising (a message assembled lazily from the boxes must cope with every kind of
+    object that can sit in `boxes`)."""
+    try:
+        texts = [str(e), repr(e), "%s" % (e,), "{}".format(e)]
+        if not all(isinstance(t, str) for t in texts):
+            return "str()/repr() of the error is not a string"
+    except Exception as e2:
+        return "printing the raised %s raises %s: %s" % (type(e).__name__, type(e2).__name__, str(e2)[:120])
+    return None
+
+
 def check_move(rep, stream, case, d, i, j, left, model, rng, ser=None, free=False, ev=None,
-               evcache=None, back=True):
+               evcache=None, back=True, deep=False):
     """One interchange request on the real diagram `d`: correspondence with the model's answer and
     the property's own predicate.  `ser` = serialiser of the real result (answer-line format),
     `free` = evaluate under recvlib.FreeIntFunctor instead of semantics.IntFunctor (any box class),
@@ -79,12 +100,16 @@ def check_move(rep, stream, case, d, i, j, left, model, rng, ser=None, free=Fals
         value[0] = d.interchange(i, j, left=left)
         return value[0]
     if ser is None:
-        real = ser_result(thunk)
-    else:
-        try:
-            real = "ok " + ser(thunk())
-        except Exception as e:  # noqa: the class is the observation
-            real, exc[0] = "err " + err_class(e), e
+        ser = ser_diagram
+    try:
+        real = "ok " + ser(thunk())
+    except Exception as e:  # noqa: the class is the observation
+        real, exc[0] = "err " + err_class(e), e
+    if exc[0] is not None and value[0] is None:
+        why = error_text_failure(exc[0])
+        if why:
+            rep.fail("error_text_raises", case, why)
+        rep.count("error_text_built")
     sim = simulate(d, i, j, left)
     rep.count("outcome:" + (real.split(" ")[0] if real.startswith("ok") else real.split(" ")[1]))
     r = value[0]
@@ -102,7 +127,7 @@ def check_move(rep, stream, case, d, i, j, left, model, rng, ser=None, free=Fals
     if real != model:
         rep.disagree(stream, case, real, model)
     if r is None or got is not None:
-        detail = "" if exc[0] is None else " (%s: %s)" % (type(exc[0]).__name__, str(exc[0])[:160])
+        detail = "" if exc[0] is None else " (%s)" % etext(exc[0])
         if r is not None:
             rep.fail("result_unreadable", case, "the returned object cannot be read as a diagram" + detail)
         elif sim[0] == "ok":
@@ -145,27 +170,87 @@ def check_move(rep, stream, case, d, i, j, left, model, rng, ser=None, free=Fals
         elif not np.array_equal(F.eval(d), F.eval(r)):
             rep.fail("semantics_changed", case, "evaluation under a random integer functor differs")
     except Exception as e:
-        rep.fail("semantics_not_evaluable", case, "integer functor on the result: %r" % (e,))
+        rep.fail("semantics_not_evaluable", case, "integer functor on the result: %s" % etext(e))
     if list(r.offsets) != list(sim[2]) or not same_boxes(r.boxes, sim[1]):
         rep.fail("offsets_unexpected", case, "offsets differ from the documented exchange rule")
-    # the class's own evaluation (tensor contraction / python call) of receiver and result
+    # a diagram of diagrams: the move must not change what the diagram denotes once its composite
+    # boxes are opened (the harness's own recursive evaluation), and the library's flatten() of the
+    # result must denote the receiver (where flatten() is usable at all, see below)
+    if deep and i != j:
+        F2 = recvlib.FreeIntFunctor(random.Random(rng.getrandbits(32)))
+        cache = evcache if evcache is not None else {}
+        try:
+            want = recvlib.eval_deep(F2, d)
+            if not np.array_equal(want, recvlib.eval_deep(F2, r)):
+                rep.fail("nested_semantics_changed", case, "with the composite boxes opened, the result "
+                         "evaluates differently under a random integer functor")
+            rep.count("nested_opened_compared")
+            # flatten() is not C05's business: it is used only where it is seen to denote the
+            # receiver under this class-blind functor (it raises for some classes, and it
+            # distributes formal sums, which turns the whole diagram into one opaque Sum)
+            if "flat" not in cache:
+                try:
+                    cache["flat"] = recvlib.flatten_comparable(d) and bool(
+                        np.array_equal(want, recvlib.eval_deep(F2, d.flatten())))
+                    if not cache["flat"]:
+                        rep.count("flatten_not_comparable")
+                except recvlib.Wide:
+                    raise
+                except Exception:
+                    cache["flat"] = False
+                    rep.count("flatten_unavailable")
+            if cache["flat"] and cache.get("flat_budget", 1) > 0:
+                if "flat_budget" in cache:
+                    cache["flat_budget"] -= 1
+                try:
+                    flat_r = r.flatten()
+                except Exception as e:
+                    # flatten() refuses some well-formed diagrams (e.g. biclosed ones with an Over /
+                    # Under codomain next to a box): a failure only if the diagram built directly
+                    # from the result's dom, cod, boxes, offsets does flatten
+                    flat_r = None
+                    if recvlib.rebuilt_flattens(d, r):
+                        rep.fail("flatten_of_result_raises", case, "Diagram(dom, cod, boxes, offsets) of "
+                                 "the result flattens, the result itself raises %s" % etext(e))
+                    else:
+                        rep.count("flatten_of_result_unavailable")
+                if flat_r is not None:
+                    if not np.array_equal(want, recvlib.eval_deep(F2, flat_r)):
+                        rep.fail("flatten_of_result_changed", case, "flatten() of the result does not "
+                                 "denote what the receiver denotes")
+                    rep.count("flatten_compared")
+        except recvlib.Wide:
+            rep.count("nested_skipped_wide")
+        except Exception as e:
+            rep.fail("nested_not_evaluable", case, "integer functor on the opened result: %s" % etext(e))
+    # the class's own evaluation (tensor contraction / python call) of receiver and result, both
+    # under the same functor: a circuit's eval() picks the pure or the mixed one from the LAYOUT
+    # (is_mixed looks at every layer boundary), so the mixed one is asked for as soon as either is
     if ev is not None and evcache is not None and i != j and evcache.get("budget", 1) > 0:
         if "budget" in evcache:
             evcache["budget"] -= 1
-        if "d" not in evcache:
+        try:
+            mixed = bool(getattr(d, "is_mixed", False)) or bool(getattr(r, "is_mixed", False))
+        except Exception:
+            mixed = False
+        key = ("d", mixed)
+        if mixed and key not in evcache and recvlib.max_width(d) > 4:
+            evcache[key] = None                    # 4^width: too wide for the mixed evaluation
+            rep.count("class_eval_skipped_wide_mixed")
+        if key not in evcache:
             try:
-                evcache["d"] = ev(d)
+                evcache[key] = ev(d, mixed=mixed)
             except Exception:
-                evcache["d"] = None
+                evcache[key] = None
                 rep.count("class_eval_unavailable")
-        if evcache["d"] is not None:
+        if evcache[key] is not None:
             try:
-                if not recvlib.same_value(evcache["d"], ev(r)):
+                if not recvlib.same_value(evcache[key], ev(r, mixed=mixed)):
                     rep.fail("class_evaluation_changed", case, "the class's own evaluation of the result "
                              "differs from the receiver's")
                 rep.count("class_eval_compared")
             except Exception as e:
-                rep.fail("result_not_evaluable", case, "the receiver evaluates, the result raises %r" % (e,))
+                rep.fail("result_not_evaluable", case, "the receiver evaluates, the result raises %s" % etext(e))
     # moving the box back.  After an ADJACENT move the neighbour is still unwired to the box, so the
     # opposite move is legal for both preferences, gives back the receiver's boxes and attachment,
     # and one of the two preferences undoes the offset bookkeeping exactly.  After a longer move a
@@ -182,8 +267,8 @@ def check_move(rep, stream, case, d, i, j, left, model, rng, ser=None, free=Fals
                 if not adjacent and err_class(e) == "interchanger":
                     rep.count("move_back_other_route_refused")
                     continue
-                rep.fail("move_back_raises", case, "interchange(%d, %d, left=%s) of the result raised %s: %s"
-                         % (j, i, l2, type(e).__name__, str(e)[:160]))
+                rep.fail("move_back_raises", case, "interchange(%d, %d, left=%s) of the result raised %s"
+                         % (j, i, l2, etext(e)))
                 continue
             try:
                 if not same_boxes(d.boxes, b.boxes) or b.dom != d.dom or b.cod != d.cod \
@@ -192,7 +277,7 @@ def check_move(rep, stream, case, d, i, j, left, model, rng, ser=None, free=Fals
                              "the boxes and their attachment" % l2)
                 exact = exact or list(b.offsets) == list(d.offsets)
             except Exception as e:
-                rep.fail("move_back_unreadable", case, repr(e))
+                rep.fail("move_back_unreadable", case, etext(e))
         if adjacent and not exact:
             rep.fail("move_back_not_exact", case, "neither preference restores the receiver's offsets "
                      "after an adjacent move")
@@ -239,13 +324,19 @@ def receivers_stream(rep, drv, rng, tier):
             spec = recvlib.rspec_diagram(d)
             before = recvlib.rser_diagram(d)
         except Exception as e:
-            rep.fail("receiver_unreadable", dict(receiver=rc.label), repr(e))
+            rep.fail("receiver_unreadable", dict(receiver=rc.label), etext(e))
             continue
         cls = type(d).__module__.replace("discopy.", "") + "." + type(d).__qualname__
         rep.count("recv_region:" + rc.region)
         rep.count("recv_family:" + rc.family)
         rep.count("recv_class:" + cls)
         rep.count("recv_boxes:%s" % (n if n < 10 else "10+"))
+        deep = any(recvlib.is_composite(b) for b in d.boxes)
+        if rc.shape:
+            rep.count("recv_shape:%s:%s" % (rc.region, rc.shape))
+            for b in d.boxes:
+                rep.count("box_object:" + ("composite diagram" if recvlib.is_composite(b)
+                                           else type(b).__module__.replace("discopy.", "") + "." + type(b).__name__))
         triples = triples_of(n, rng, tier)
         if hasattr(d, "terms"):            # a formal sum: also the indices its len() admits
             m = max(n, len(d))
@@ -253,15 +344,21 @@ def receivers_stream(rep, drv, rng, tier):
         rng.shuffle(triples)               # the class evaluation is spent on the first legal moves
         lines = ["eval " + tok_expr(("interchange", spec, i, j, l)) for i, j, l in triples]
         answers = drv.ask_many(lines)
-        evcache = {"budget": 5 if tier == "quick" else 16}
+        evcache = {"budget": 5 if tier == "quick" else 16, "flat_budget": 4 if tier == "quick" else 24}
+        if rc.shape and tier == "quick":
+            evcache["budget"] = 1 if rc.family == "circuit" else 2
         ev = rc.ev if recvlib.max_width(d) <= 6 else None
         good = []
         for (i, j, l), line, model in zip(triples, lines, answers):
             case = dict(stream="receivers", receiver=rc.label, cls=cls, region=rc.region, i=i, j=j,
-                        left=l, repr=repr(d)[:400], request=line[:1500])
+                        left=l, repr=recvlib.safe_repr(d)[:400], request=line[:1500])
             ok = check_move(rep, "receivers", case, d, i, j, l, model, rng, ser=recvlib.rser_diagram,
-                            free=True, ev=ev, evcache=evcache)
+                            free=True, ev=ev, evcache=evcache, deep=deep)
             nontrivial = n >= 2 and i != j and 0 <= i < n and 0 <= j < n
+            if nontrivial and simulate(d, i, j, l)[0] == "interchanger":
+                rep.count("recv_must_refuse:" + rc.region)
+                if abs(i - j) > 1 and simulate(d, i, i + (1 if j > i else -1), l)[0] == "ok":
+                    rep.count("recv_must_refuse_part_way:" + rc.region)
             rep.case(cls + " " + line, nontrivial)
             if nontrivial:
                 rep.count("recv_moves:" + rc.region)
@@ -280,13 +377,14 @@ def receivers_stream(rep, drv, rng, tier):
                 try:
                     line = "eval " + tok_expr(("interchange", recvlib.rspec_diagram(cur), i, j, l))
                 except Exception as e:
-                    rep.fail("receiver_unreadable", dict(receiver=rc.label, step=(i, j, l)), repr(e))
+                    rep.fail("receiver_unreadable", dict(receiver=rc.label, step=(i, j, l)), etext(e))
                     break
                 model = drv.ask(line)
-                case = dict(stream="receivers", receiver="a result of moves on " + rc.label, cls=cls,
-                            i=i, j=j, left=l, repr=repr(cur)[:400], request=line[:1500])
+                case = dict(stream="receivers", receiver="a result of moves on " + rc.label, cls=cls, region=rc.region,
+                            i=i, j=j, left=l, repr=recvlib.safe_repr(cur)[:400], request=line[:1500])
                 ok = check_move(rep, "receivers", case, cur, i, j, l, model, rng,
-                                ser=recvlib.rser_diagram, free=True, ev=ev, evcache={"budget": 1})
+                                ser=recvlib.rser_diagram, free=True, ev=ev,
+                                evcache={"budget": 1, "flat_budget": 1}, deep=deep)
                 rep.case(cls + " " + line, i != j)
                 rep.count("recv_sequence_step")
                 if not ok:
@@ -298,7 +396,7 @@ def receivers_stream(rep, drv, rng, tier):
                 rep.fail("receiver_mutated", dict(receiver=rc.label, cls=cls),
                          "the receiver changed under interchange calls")
         except Exception as e:
-            rep.fail("receiver_mutated", dict(receiver=rc.label, cls=cls), repr(e))
+            rep.fail("receiver_mutated", dict(receiver=rc.label, cls=cls), etext(e))
 
 
 def run(tier, seed, replay=None):
@@ -311,7 +409,13 @@ def run(tier, seed, replay=None):
                 "Discard / Swap / Id), user subclasses Own_<class> built the same way, plain diagrams "
                 "grown with >> and @ / rebuilt by the constructor / daggered / sliced / tensored, helper "
                 "outputs (swap, permutation, cups, caps, spiders, ansatz functions), functor results, "
-                "one-box receivers (every box class, Sum, Bubble, Id) - with all (i, j, left) in [-1, n] "
+                "one-box receivers (every box class, Sum, Bubble, Id), and - regions nested / "
+                "sum-bubble-box / odd-name / odd-str / foreign-box / mixed-kinds - diagrams of every class "
+                "whose `boxes` hold composite diagrams (1 and 2 levels, identities, foliation()), formal "
+                "sums (0-3 terms, of composites) and bubbles, boxes of another class than the diagram, "
+                "boxes with non-string or format-hazardous names, boxes of user subclasses with their own "
+                "__str__/__repr__/__format__, laid out grown / chain (wired) / blocked-left,-right,-2 "
+                "(refused part-way) / side - with all (i, j, left) in [-1, n] "
                 "(sampled above 4 / 9 boxes) and 3-step histories; non-trivial = i != j in range on a "
                 "diagram of >= 2 boxes; distinct by receiver class + request line")
     rep.partial = ["the class of the receiver (self.upgrade, subclass constructors) is outside the Lean "
@@ -319,7 +423,15 @@ def run(tier, seed, replay=None):
                    "class-blind model and applies the property's oracle (incl. the class's own "
                    "evaluation: tensor/circuit eval, cartesian call; zx/biclosed/grammar receivers are "
                    "evaluated under the free integer functor only)",
-                   "taking a move back is a theorem (and an oracle clause) for adjacent moves only"]
+                   "taking a move back is a theorem (and an oracle clause) for adjacent moves only",
+                   "the TEXT of the refusal (InterchangerError's message, built from str() of whatever "
+                   "sits in `boxes`) is outside the Lean model: that the refusal is exactly an "
+                   "InterchangerError / IndexError for every kind of box object, and that str()/repr() "
+                   "of the raised error can be built, is an oracle clause (the model side is "
+                   "interchange_box_blind: outcome and error class do not depend on what the boxes are)",
+                   "flatten() of a result is compared with the receiver only where flatten() is usable "
+                   "(no Sum/Bubble inside, the receiver's own flatten() denotes the receiver); the "
+                   "harness's own recursive opening of composite boxes is compared always"]
     rep.lean = lean_obligations(PROP, thorough=(tier == "thorough"))
     n_diagrams = 120 if tier == "quick" else 2500
     rng = random.Random(seed)
